@@ -36,6 +36,10 @@ CHECKS = {
          "All 361 ordered pairs and 6859 triples of the 19 infix operators plus ~330 templates (prefix/postfix/iterator-level/assignment/tokenisation); for each, operands are searched so that the table's grouping is distinguished from the other groupings, then the bare text (spaced and unspaced) must agree with the table's grouping.",
          "Both sides are evaluated by the implementation (parentheses are trusted to group); chains whose groupings cannot be distinguished are counted, not claimed.",
          "DESIGN.md section 3, C14"),
+ "C03": ("exhaustive short token sequences + proptest-driven random token sequences, grammar derivations (pest_meta on the project's own grammar), token-level mutation of the documentation corpus, an operator x operand-type matrix, constant-failure and import fault catalogues; oracle: no panic (crash oracle on a total function)",
+         "About 1.3M calls per quick run of Code::parse (two environments), Code::return_type, Error::to_string, Variable::from_str and Type::from_str on generated text; every construct of the grammar is reached through derivations and the operand-type matrix (60 operand types incl. `!`, `any`, unions of every compound kind x ~100 unary and ~60 binary templates).",
+         "Inputs nested deeper than 40 brackets and imports outside the scratch directory are skipped (stack exhaustion and device reads are outside the claim); a panic hook + catch_unwind is the observation.",
+         "DESIGN.md section 3, C03"),
 }
 PENDING = {}
 props = [json.loads(l) for l in open(os.path.join(ROOT, "properties.jsonl"))]
